@@ -30,7 +30,9 @@ def clean (l : List Ev) (keep : List Nat) : Bool :=
 
 open Ev
 
-/-! ## `s3file_get_1d/_2d/_3d` (s3file.c:446-548); object 0 = `*buf`/`raw`, 1,2 = row tables -/
+/-! ## `s3file_get_1d/_2d/_3d` (s3file.c:446-548); object 0 = `*buf`/`raw`, 1 = the row table
+(`ckd_alloc_2d_ptr`/`ckd_alloc_3d_ptr`: one object at the level of the `ckd_*` entry points, which is
+the granularity of all ledgers and of the allocation traces they are compared with) -/
 
 inductive ArrStage where
   | dims        -- a dimension / the size cannot be read, or the size is bad: nothing allocated yet
@@ -55,7 +57,7 @@ def get3d (pinned : Bool) : ArrStage → List Ev
   | .dims => []
   | .data => get1d pinned .data
   | .mismatch => [alloc 0, free 0]
-  | .ok => [alloc 0, alloc 1, alloc 2]
+  | .ok => [alloc 0, alloc 1]
 
 /-! ## `tmat_init_s3file` (tmat.c:107-228); 0 = `t`, 1 = `t->tp`, 2 = the temporary `tp` -/
 
@@ -111,7 +113,8 @@ deriving Repr, DecidableEq
 
 /-- `gauden_free(g)` + `ckd_free(flen)` on whatever exists -/
 def gauUnwind (live : List Nat) : List Ev :=
-  ([20, 11, 12, 21, 22, 30, 10, 0].filter live.contains).map free
+  -- gauden_param_free releases `buf` (p[0][0][0]) before the pointer table
+  ([20, 12, 11, 22, 21, 30, 10, 0].filter live.contains).map free
 
 def gauden : GauStage → List Ev
   | .means s => [alloc 0] ++ param 10 s ++ gauUnwind (0 :: paramLive 10 s)
@@ -119,7 +122,7 @@ def gauden : GauStage → List Ev
   | .mismatch => [alloc 0] ++ param 10 .ok ++ param 20 .ok ++ gauUnwind [0, 10, 11, 12, 20, 21, 22]
   | .ok => [alloc 0] ++ param 10 .ok ++ param 20 .ok ++ [free 20, alloc 30]
 
-/-! ## `feat_read_lda_s3file` (lda.c:83-125); 0,1,2 = the 3-d array, 9 = a previous `feat->lda` -/
+/-! ## `feat_read_lda_s3file` (lda.c:83-125); 0,1 = the 3-d array, 9 = a previous `feat->lda` -/
 
 inductive LdaStage where
   | header
@@ -134,8 +137,104 @@ is left pointing at freed memory (D19b: the pinned code leaves the old pointer i
 def lda (pinned hadOld : Bool) : LdaStage → List Ev × Bool
   | .header => (if hadOld then [alloc 9] else [], false)
   | .array s => ((if hadOld then [alloc 9, free 9] else []) ++ get3d pinned s, hadOld && pinned)
-  | .chksum => ((if hadOld then [alloc 9, free 9] else []) ++ get3d pinned .ok ++ [free 0, free 1, free 2], hadOld && pinned)
+  | .chksum => ((if hadOld then [alloc 9, free 9] else []) ++ get3d pinned .ok ++ [free 0, free 1], hadOld && pinned)
   | .dims => ((if hadOld then [alloc 9, free 9] else []) ++ get3d pinned .ok, false)
   | .ok => ((if hadOld then [alloc 9, free 9] else []) ++ get3d pinned .ok, false)
+
+/-! ## `bin_mdef_read_s3file` (bin_mdef.c:336-590); 0 = `m`, 1 = `m->ciname`, 2 = `m->sseq`,
+3 = `m->cd2cisen`, 4 = `m->sen2cimap`, 5 = `m->ciname[0]` (the copy of an other-endian file) -/
+
+inductive MdefStage where
+  | pre       -- byte-order marker, version, descriptor: `m` not allocated yet
+  | counts    -- a count cannot be read / the counts are inconsistent
+  | tables    -- names, cd_tree, phone records, sseq_size, sseq area do not fit
+  | seqs      -- sseq size does not match / sseq_len truncated (after `m->sseq` was allocated)
+  | maps      -- a phone record or a senone sequence refers to something that does not exist
+  | ok
+deriving Repr, DecidableEq
+
+/-- `bin_mdef_free` releases (the copy), `cd2cisen`, `sen2cimap`, `ciname`, `sseq`, `m` -/
+def mdefUnwind (live : List Nat) : List Ev :=
+  ([5, 3, 4, 1, 2, 0].filter live.contains).map free
+
+def mdef (swap : Bool) : MdefStage → List Ev
+  | .pre => []
+  | .counts => [alloc 0] ++ mdefUnwind [0]
+  | .tables => [alloc 0, alloc 1] ++ (if swap then [alloc 5] else []) ++ mdefUnwind ([0, 1] ++ if swap then [5] else [])
+  | .seqs => [alloc 0, alloc 1] ++ (if swap then [alloc 5] else []) ++ [alloc 2] ++ mdefUnwind ([0, 1, 2] ++ if swap then [5] else [])
+  | .maps => [alloc 0, alloc 1] ++ (if swap then [alloc 5] else []) ++ [alloc 2, alloc 3, alloc 4] ++
+      mdefUnwind ([0, 1, 2, 3, 4] ++ if swap then [5] else [])
+  | .ok => [alloc 0, alloc 1] ++ (if swap then [alloc 5] else []) ++ [alloc 2, alloc 3, alloc 4]
+
+def mdefKeep (swap : Bool) : List Nat := [0, 1, 2, 3, 4] ++ if swap then [5] else []
+
+/-! ## `ptm_mgau_init_s3file` (ptm_mgau.c:754-860) with `read_sendump`/`read_mixw`; 0 = `s`, 1 = the
+codebooks `g` (as one object: `gauden_init_s3file`/`gauden_free`, whose own ledger is `gauden`),
+2 = `*out_mixw`, 3 = `pdf` (read_mixw), 4 = `s->sen2cb`, 5 = `s->hist`, 6,7 = `hist[i].topn`,
+8,9 = `hist[i].mgau_active`.  The log tables (`logmath_init`) are reference-counted objects of
+another module and not part of this ledger. -/
+
+inductive PtmStage where
+  | gauden    -- the codebooks cannot be read (`g` is allocated and released inside gauden_init_s3file)
+  | checks    -- codebook count / stream dimensions do not match the model definition / front end
+  | sdHead    -- read_sendump fails before the row table is allocated
+  | sdRows    -- read_sendump: the rows are truncated
+  | mxHead    -- read_mixw fails before anything is allocated
+  | nsen      -- D19l: senone count of the mixture weights ≠ model definition
+  | okSd | okMx
+deriving Repr, DecidableEq
+
+/-- `ptm_mgau_free`: mixw, sen2cb, the histories, hist, the codebooks, `s` -/
+def ptmUnwind (live : List Nat) : List Ev :=
+  ([2, 4, 6, 8, 7, 9, 5, 1, 0].filter live.contains).map free
+
+def ptmTail : List Ev := [alloc 4, alloc 5, alloc 6, alloc 8, alloc 7, alloc 9]
+
+def ptm : PtmStage → List Ev
+  | .gauden => [alloc 0, alloc 1, free 1, free 0]
+  | .checks => [alloc 0, alloc 1] ++ ptmUnwind [0, 1]
+  | .sdHead => [alloc 0, alloc 1] ++ ptmUnwind [0, 1]
+  | .sdRows => [alloc 0, alloc 1, alloc 2] ++ ptmUnwind [0, 1, 2]
+  | .mxHead => [alloc 0, alloc 1] ++ ptmUnwind [0, 1]
+  | .nsen => [alloc 0, alloc 1, alloc 2, alloc 3, free 3] ++ ptmUnwind [0, 1, 2]
+  | .okSd => [alloc 0, alloc 1, alloc 2] ++ ptmTail
+  | .okMx => [alloc 0, alloc 1, alloc 2, alloc 3, free 3] ++ ptmTail
+
+def ptmKeep : List Nat := [0, 1, 2, 4, 5, 6, 7, 8, 9]
+
+/-! ## names of the objects: `<file>:<left-hand side of the allocating assignment>` — what the
+allocation traces of the harness are abstracted to (tools/props/c17.py) -/
+
+def arrName : Nat → String
+  | 0 => "s3file.c:*buf"
+  | _ => "s3file.c:*arr"
+
+def tmatName : Nat → String
+  | 0 => "tmat.c:t"
+  | 1 => "tmat.c:t->tp"
+  | _ => "tmat.c:tp"
+
+def gauName (i : Nat) : String :=
+  if i = 0 then "ms_gauden.c:g" else if i = 30 then "ms_gauden.c:g->det"
+  else if i % 10 = 0 then "ms_gauden.c:veclen" else if i % 10 = 1 then "ms_gauden.c:out" else "ms_gauden.c:buf"
+
+def mdefName : Nat → String
+  | 0 => "bin_mdef.c:m"
+  | 1 => "bin_mdef.c:m->ciname"
+  | 2 => "bin_mdef.c:m->sseq"
+  | 3 => "bin_mdef.c:m->cd2cisen"
+  | 4 => "bin_mdef.c:m->sen2cimap"
+  | _ => "bin_mdef.c:m->ciname[0]"
+
+def ptmName : Nat → String
+  | 0 => "ptm_mgau.c:s"
+  | 1 => "ms_gauden.c:g"
+  | 2 => "ptm_mgau.c:*out_mixw"
+  | 3 => "ptm_mgau.c:pdf"
+  | 4 => "ptm_mgau.c:s->sen2cb"
+  | 5 => "ptm_mgau.c:s->hist"
+  | 6 => "ptm_mgau.c:s->hist[i].topn"
+  | 7 => "ptm_mgau.c:s->hist[i].topn"
+  | _ => "ptm_mgau.c:s->hist[i].mgau_active"
 
 end SSVerif.S3file.Ledger
